@@ -10,6 +10,14 @@ Judge(e) ==
   CASE e.op = "crc32" -> Want(e, Crc32(e.data))
     [] e.op = "crc"   -> Want(e, CrcBitwise(e.P, e.data, e.init, e.final))
     [] e.op = "back"  -> Want(e, CrcRegBitwise(e.P, SubSeq(e.data, 1, e.pos), e.init))     \* register after data[:pos]
+    [] e.op = "crc32r" -> Want(e, Crc32Runs(e.runs))                                          \* data run-length encoded <<byte, count>>.. (long inputs)
+    [] e.op = "crcr"  -> Want(e, CrcRuns(e.P, e.runs, e.init, e.final))
+    [] e.op = "fixr"  -> \* long forgeries: the recorder gives the canonical run-length encoding of input and result on both sides of the window
+                         IF e.raised # "" THEN <<C("must-not-raise", "patched data")>>
+                         ELSE IF e.olen # e.dlen \/ RunsLen(e.ohead) + Len(e.owin) + RunsLen(e.otail) # e.dlen \/ Len(e.owin) # 4 THEN <<C("same-length", e.dlen)>>
+                         ELSE IF e.ohead # e.dhead \/ e.otail # e.dtail THEN <<C("only-the-four-designated-bytes-change", RunsLen(e.dhead))>>
+                         ELSE LET got == Crc32Runs(e.ohead \o [q \in 1..4 |-> <<e.owin[q], 1>>] \o e.otail)
+                              IN IF got # e.target THEN <<C("crc32-of-result-is-the-target", [got |-> got, target |-> e.target])>> ELSE <<>>
     [] e.op = "fix"   -> IF e.raised # "" THEN <<C("must-not-raise", "patched data")>>
                          ELSE IF Len(e.obs) # Len(e.data) THEN <<C("same-length", Len(e.data))>>
                          ELSE IF \E q \in 1..Len(e.data) : (q <= e.pos \/ q > e.pos + 4) /\ e.obs[q] # e.data[q] THEN <<C("only-the-four-designated-bytes-change", e.pos)>>
